@@ -25,6 +25,10 @@ const prelude = `(set-logic ALL)
 (declare-fun shl (Int Int) Int)
 (declare-fun shr (Int Int) Int)
 (declare-fun maplen (Int Int) Int)
+(declare-fun objroot (Int) Int)
+(declare-fun inarr (Int) Int)
+(assert (forall ((p Int)) (! (=> (> p 0) (and (= (objroot p) p) (= (inarr p) 0))) :pattern ((objroot p)))))
+(assert (forall ((p Int)) (! (=> (> p 0) (= (inarr p) 0)) :pattern ((inarr p)))))
 (define-fun godiv ((a Int) (b Int)) Int (ite (>= a 0) (ite (> b 0) (div a b) (- (div a (- b)))) (ite (> b 0) (- (div (- a) b)) (div (- a) (- b)))))
 (define-fun gomod ((a Int) (b Int)) Int (- a (* b (godiv a b))))
 `
@@ -52,7 +56,7 @@ func (P *Program) NewGen(fn *ssa.Function, spec *FuncSpec) *Gen {
 		oblNames: map[string]int{}, loopOrd: map[*ssa.BasicBlock]int{}, loops: map[*ssa.BasicBlock]*loopInfo{},
 		strConsts: map[string]string{}, localsByName: map[string][]*ssa.Alloc{}, knownNonNil: map[string]bool{},
 		out: map[*ssa.BasicBlock]*State{}, usedSpecs: map[string]bool{}, cands: map[*ssa.BasicBlock][]*candInv{},
-		autoInvs: map[int][]Clause{}, variantAtHead: map[*ssa.BasicBlock]string{}, heapKind: map[string]Kind{},
+		joinParts: map[string][]string{}, autoInvs: map[int][]Clause{}, variantAtHead: map[*ssa.BasicBlock]string{}, heapKind: map[string]Kind{},
 	}
 	return g
 }
@@ -513,6 +517,7 @@ func (g *Gen) mergeStates(b *ssa.BasicBlock, es []inEdge) *State {
 	}
 	r := g.fresh(fmt.Sprintf("R%d", b.Index), "Bool")
 	g.emit("(assert " + eq(r, or(guards...)) + ")")
+	g.joinParts[r] = append([]string{}, guards...)
 	st := &State{reach: r, vars: map[*ssa.Alloc]*Val{}}
 	// vars
 	allocs := map[*ssa.Alloc]bool{}
@@ -733,6 +738,17 @@ func (g *Gen) loopHead(b *ssa.BasicBlock, li *loopInfo, st *State) *State {
 			g.oblige("inv-entry", fmt.Sprintf("loop%d:%s", li.ord, lb), b.Instrs[0].Pos(), st.reach, g.evalBool(env, part))
 		}
 	}
+	// hidden range counters: -1 <= rangeindex is an automatic invariant (proved like any other)
+	var rangeIdx []*ssa.Alloc
+	for a := range li.modVars {
+		if a.Comment == "rangeindex" {
+			if v, live := st.vars[a]; live {
+				rangeIdx = append(rangeIdx, a)
+				g.oblige("inv-entry", fmt.Sprintf("loop%d:auto -1 <= rangeindex", li.ord), b.Instrs[0].Pos(), st.reach, "(<= (- 1) "+v.S+")")
+			}
+		}
+	}
+	li.rangeIdx = rangeIdx
 	// 2. havoc what the loop modifies
 	h := st.clone()
 	var mv []*ssa.Alloc
@@ -752,6 +768,9 @@ func (g *Gen) loopHead(b *ssa.BasicBlock, li *loopInfo, st *State) *State {
 		g.applyModSet(h, &ModSet{All: true})
 	} else {
 		g.applyModSet(h, &ModSet{Names: li.modHeap})
+	}
+	for _, a := range rangeIdx {
+		g.assume(h.reach, "(<= (- 1) "+h.vars[a].S+")")
 	}
 	g.loopFrame(st, h, li)
 	// 3. assume invariants
@@ -799,7 +818,12 @@ func (g *Gen) backEdge(b *ssa.BasicBlock, succIdx int, li *loopInfo, st *State) 
 			if lb == "" {
 				lb = part.String()
 			}
-			g.oblige("inv-preserve", fmt.Sprintf("loop%d:%s", li.ord, lb), pos, guard, g.evalBool(env, part))
+			g.obligeSplit("inv-preserve", fmt.Sprintf("loop%d:%s", li.ord, lb), pos, guard, g.evalBool(env, part))
+		}
+	}
+	for _, a := range li.rangeIdx {
+		if v, live := st.vars[a]; live {
+			g.oblige("inv-preserve", fmt.Sprintf("loop%d:auto -1 <= rangeindex", li.ord), pos, guard, "(<= (- 1) "+v.S+")")
 		}
 	}
 	if c, ok := g.variantAtHead[li.head]; ok {
@@ -923,7 +947,9 @@ func (g *Gen) loopFrame(before, head *State, li *loopInfo) {
 			}
 			g.emit(fmt.Sprintf("(assert (forall ((a Int)) (! (=> %s (= (select %s a) (select %s a))) :pattern ((select %s a)))))", and(conds...), nw, old, nw))
 		case strings.HasPrefix(name, "H|") && strings.HasPrefix(srt, "(Array Int ") && !strings.HasPrefix(srt, "(Array Int (Array"):
-			conds := []string{"(< 0 p)", "(< p " + g.brk(g.entry) + ")"}
+			// p existed at function entry: a top-level object below the entry allocation counter, or an
+			// interior/element address whose root object or array did
+			conds := []string{"(or (and (= (inarr p) 0) (< 0 (objroot p)) (< (objroot p) " + g.brk(g.entry) + ")) (and (< 0 (inarr p)) (< (inarr p) " + g.abrk(g.entry) + ")))"}
 			for _, l := range locs {
 				switch l.kind {
 				case "field":
